@@ -21,11 +21,25 @@ binding:   (a) spec -> code: every CASE x k concretizations is fed to the real p
            mode and domain membership from the code points and decides the verdict
            (outputs = Expected); the class of each line comes from the independent classifier
            below and is used for the diagnostic replay of the automaton only.
+           (c) process-wide state (spec/ReproTokenizerShared.tla: documents, objects, a memo keyed
+           by line text; UnmodifiedLossless, Isolation, InputUntouched; negative control
+           SharedTokens = TRUE): the previous document is kept alive and re-dumped / its input
+           re-tokenized after the next parse; for every 2nd case (thorough: every case) the same lines
+           are parsed as iterator, generator and twice as the same list object (the list must come
+           back untouched), the first result is edited through the public API (set / delete / sort /
+           append / insert), a different document sharing its lines (the CASE without the last line)
+           and a second parse of the same lines must still dump exactly, and further edits of other
+           documents must not change the first one's dump.  In the trace leg every document is
+           re-dumped after the next document was parsed and a sibling parse was edited; that output
+           is one more element of `outs`, judged by TLC.
 verdict observables:   parse_deb822_file(lines, accept_files_with_error_tokens=True,
            accept_files_with_duplicated_fields=True) returns; dump() == expected;
            "".join(t.text for t in tokenize_deb822_file(lines)) == expected.
+           The same for every unmodified document at any later time and for any iterable form of the
+           same line sequence; the caller's list is unchanged; an operation on one document does not
+           change the dump of another (frame condition, compared before/after).
 diagnostic (spec_drift only): token kind sequence, top-level part list, bytes input form,
-           agreement of the classifier with the generator.
+           agreement of the classifier with the generator, token objects shared between live documents.
 """
 import json
 import random
@@ -36,7 +50,7 @@ from lts import LTS, skey
 
 MANIFEST = dict(
     technique="TLA+ spec (ReproTokenizer: line-class automaton of the tokenizer + element-builder automaton, segment identities) model-checked by TLC; every bounded document replayed into parse_deb822_file/tokenize_deb822_file with several concretizations; recorded parses of random documents validated by TLC (TraceReproTokenizer)",
-    text="TLC checks totality and determinism of the tokenizer automaton on the closed control-state space (documents of any length) and, for every document of up to 3 lines over 11 line classes and 4 lines over 6 classes (quick; thorough: 5 lines over 11 classes, 6 lines over 6 classes) x termination x the two input modes, that every input segment lands in exactly one token in order (Lossless), that tokens obey the constructor rule (TokenShape) and that the element builders only group tokens (PartsLossless). Each of these documents is concretized several times (odd Unicode whitespace, duplicate and case-variant field names, values with ':' '#' '-', non-ASCII, garbage lines) and fed to the real parser: dump() and the joined token texts must equal the expected text carried by the TLC case. In the other direction random documents of up to 40 lines (walks through the emitted LTS, raw random text, mixtures) are parsed by the real code and TLC validates the recorded outputs against the identity, deciding itself from the code points whether the document is in the domain.",
+    text="TLC checks totality and determinism of the tokenizer automaton on the closed control-state space (documents of any length) and, for every document of up to 3 lines over 11 line classes and 4 lines over 6 classes (quick; thorough: 5 lines over 11 classes, 6 lines over 6 classes) x termination x the two input modes, that every input segment lands in exactly one token in order (Lossless), that tokens obey the constructor rule (TokenShape) and that the element builders only group tokens (PartsLossless). Each of these documents is concretized several times (odd Unicode whitespace, duplicate and case-variant field names, values with ':' '#' '-', non-ASCII, garbage lines) and fed to the real parser: dump() and the joined token texts must equal the expected text carried by the TLC case. The property is also checked process-wide (ReproTokenizerShared: unmodified documents stay lossless whatever was parsed or edited before, the caller's list is untouched): earlier results are kept alive and re-dumped, inputs are parsed repeatedly and in iterator form, and results are edited through the public API between parses. In the other direction random documents of up to 40 lines (walks through the emitted LTS, raw random text, mixtures) are parsed by the real code and TLC validates the recorded outputs against the identity, deciding itself from the code points whether the document is in the domain.",
     note="Small-scope: bounded configurations stop at 4/6 lines (the longest ones over a reduced class alphabet; thorough replays documents of <= 4 lines over 11 classes and 5 lines over 8 classes); payload characters are sampled, not enumerated. Field-name equality (duplicate fields) is a payload dimension sampled by the concretizer, not modelled. Token kinds and part lists are diagnostic (spec_drift), only parse success and the two identities give a verdict. Lines may contain any code point except newline (incl. other str.splitlines boundaries); an empty unterminated last line and mixed termination are outside the domain (executed, any outcome accepted). Trusted: TLC, the concretizer, the projection (dump(), token texts); the independent line classifier only feeds diagnostics. Corrupted control traces must be rejected in every run.",
     design="5 (C01)")
 
@@ -572,12 +586,34 @@ def prefix_case(index, case):
     return index.get((case["m"], tuple(case["ls"][:n]), tuple(case["t"][:n])))
 
 
+def replay_history(history):
+    """re-execute the recorded last few harness events (parses and shared-state scenarios) so that a
+    failure that depends on what happened before in the process can be reproduced; returns the
+    objects to keep alive"""
+    alive = []
+    for ev in history or []:
+        try:
+            lines, expected = case_texts(ev["case"], ev["conc"])
+            if ev["ev"] == "parse":
+                alive.append(observe(lines, keep=True))
+            else:
+                other = case_texts(ev["other_case"], ev["conc"]) if ev.get("other_case") else None
+                shared_scenario(lines, expected, other, ev["mseed"])
+        except core.MachineryError:
+            raise
+        except Exception:
+            pass
+    return alive
+
+
 def replay_cases(ctx, cases, styles, index, shared_every, stats, bytes_every=7):
     """styles: concretization styles per case (the first one is the canonical minimal form);
     shared_every: every n-th case also runs the shared-state scenario (1 = all)"""
+    from collections import deque
     rng = ctx.rng
     n = 0
-    prev = None          # (file, lines, expected, case, conc) of the previous concretization
+    prev = None          # (file, lines, expected) of the previous concretization, kept alive
+    history = deque(maxlen=4)     # the last harness events, recorded with every violation
     for idx, case in enumerate(cases):
         for j, style in enumerate(styles):
             conc = concretize_case(rng, case, style)
@@ -585,24 +621,39 @@ def replay_cases(ctx, cases, styles, index, shared_every, stats, bytes_every=7):
             msg, lines, expected = run_case(ctx, case, conc, with_bytes=((idx + j) % bytes_every == 0), keep=keep)
             n += 1
             if msg:
-                ctx.violation({"kind": "case", "case": case, "conc": conc, "lines": lines, "expected": expected}, msg)
+                ctx.violation({"kind": "case", "case": case, "conc": conc, "lines": lines, "expected": expected,
+                               "history": list(history)}, msg)
+                history.append({"ev": "parse", "case": case, "conc": conc})
                 break
             if prev is not None:
-                msg = prev_check(prev[:3], lines)
+                msg = prev_check(prev, lines)
                 stats["previous_document_rechecked"] = stats.get("previous_document_rechecked", 0) + 1
                 if msg:
-                    ctx.violation({"kind": "prev", "prev_case": prev[3], "prev_conc": prev[4], "case": case,
-                                   "conc": conc}, msg)
+                    ctx.violation({"kind": "prev", "case": case, "conc": conc, "history": list(history)}, msg)
                     break
-            prev = (keep[0], lines, expected, case, conc) if keep and keep[0] is not None else None
+                # diagnostic: two live documents never consist of the same token OBJECTS (tokens carry
+                # parent pointers); not observable through dump(), hence drift only
+                if keep and keep[0] is not None and stats.get("token_objects_shared", 0) < 3:
+                    try:
+                        mine = {id(t) for t in keep[0].iter_tokens()}
+                        if any(id(t) in mine for t in prev[0].iter_tokens()):
+                            stats["token_objects_shared"] = stats.get("token_objects_shared", 0) + 1
+                            ctx.drift("documents parsed from %r and %r share token objects" % (prev[1], lines))
+                    except Exception:
+                        pass
+            prev = (keep[0], lines, expected) if keep and keep[0] is not None else None
+            history.append({"ev": "parse", "case": case, "conc": conc})
             if idx % shared_every == 0 and j == (idx // shared_every) % min(2, len(styles)):
                 pc = prefix_case(index, case)
                 other = case_texts(pc, conc) if pc is not None else None
                 mseed = rng.randrange(1 << 30)
                 msg = shared_scenario(lines, expected, other, mseed, stats)
                 stats["shared_state_scenarios"] = stats.get("shared_state_scenarios", 0) + 1
+                hist = list(history)
+                history.append({"ev": "shared", "case": case, "conc": conc, "other_case": pc, "mseed": mseed})
                 if msg:
-                    ctx.violation({"kind": "shared", "case": case, "conc": conc, "other_case": pc, "mseed": mseed}, msg)
+                    ctx.violation({"kind": "shared", "case": case, "conc": conc, "other_case": pc, "mseed": mseed,
+                                   "history": hist}, msg)
                     break
         ctx.case_seen(case_key(case), len(case["ls"]) > 0)
         if len(ctx.violations) >= ctx.max_violation_files:
@@ -990,20 +1041,28 @@ def run(ctx):
 
 def replay(ctx, case):
     if case.get("kind") == "case":
+        alive = replay_history(case.get("history"))
         msg, _, _ = run_case(None, case["case"], case["conc"])
+        del alive
         return msg
     if case.get("kind") == "prev":
-        pl, pe = case_texts(case["prev_case"], case["prev_conc"])
+        # the last history event is the parse of the document that is re-checked
+        alive = replay_history(case.get("history"))
+        if not alive or alive[-1].get("file") is None:
+            return "the earlier document could not be parsed"
+        last = [ev for ev in case["history"] if ev["ev"] == "parse"][-1]
+        pl, pe = case_texts(last["case"], last["conc"])
         lines, _ = case_texts(case["case"], case["conc"])
-        pobs = observe(pl, keep=True)
-        if pobs.get("file") is None:
-            return "the parser raised %s on %r" % (pobs["exc"], pl)
         observe(lines)
-        return prev_check((pobs["file"], pl, pe), lines)
+        return prev_check((alive[-1]["file"], pl, pe), lines)
     if case.get("kind") == "shared":
+        alive = replay_history(case.get("history")[:-1])     # the last event is this case's own parse
         lines, expected = case_texts(case["case"], case["conc"])
+        keep = observe(lines, keep=True)
         other = case_texts(case["other_case"], case["conc"]) if case.get("other_case") else None
-        return shared_scenario(lines, expected, other, case["mseed"])
+        msg = shared_scenario(lines, expected, other, case["mseed"])
+        del alive, keep
+        return msg
     if case.get("kind") == "trace":
         lines = case["lines"]
         obs = observe(lines, keep=True)
